@@ -30,15 +30,20 @@ open Neumann.Vec
 def swap {α : Type} (l : List α) (i j : Nat) : List α :=
   if h : i < l.length ∧ j < l.length then (l.set i l[j]).set j l[i] else l
 
-/-- `sift_up(0, pos)`: `while pos > 0 { parent = (pos-1)/2; if elt <= data[parent] {break}; move }` -/
+/-- `sift_up(0, pos)`: `while pos > 0 { parent = (pos-1)/2; if elt <= data[parent] {break}; move }`.
+    Structural on a fuel that is never exhausted: the position strictly decreases and the
+    function is started with `pos + 1` (`siftUpF_fuel` in the lemmas). -/
+def siftUpF {α : Type} (le : α → α → Bool) : Nat → List α → Nat → List α
+  | 0, l, _ => l
+  | fuel + 1, l, pos =>
+    if pos = 0 then l
+    else if h : pos < l.length then
+      if le l[pos] (l[(pos - 1) / 2]'(by omega)) then l
+      else siftUpF le fuel (swap l pos ((pos - 1) / 2)) ((pos - 1) / 2)
+    else l
+
 def siftUp {α : Type} (le : α → α → Bool) (l : List α) (pos : Nat) : List α :=
-  if hp : pos = 0 then l
-  else if h : pos < l.length then
-    if le l[pos] (l[(pos - 1) / 2]'(by omega)) then l
-    else siftUp le (swap l pos ((pos - 1) / 2)) ((pos - 1) / 2)
-  else l
-termination_by pos
-decreasing_by omega
+  siftUpF le (pos + 1) l pos
 
 /-- the larger child (`child += (data[child] <= data[child+1]) as usize`) -/
 def pickChild {α : Type} (le : α → α → Bool) (l : List α) (child : Nat) : Nat :=
@@ -59,17 +64,18 @@ theorem pickChild_le {α : Type} (le : α → α → Bool) (l : List α) (child 
   · omega
 
 /-- the loop of `sift_down_to_bottom(0)` (`endn` = `self.len()`, read once): walk the hole down
-    along the larger child to the bottom; returns the vector and the final position -/
+    along the larger child to the bottom; returns the vector and the final position.
+    Structural on a fuel that is never exhausted (`pos` at least doubles; started with `endn`). -/
+def siftDownF {α : Type} (le : α → α → Bool) (endn : Nat) : Nat → List α → Nat → List α × Nat
+  | 0, l, pos => (l, pos)
+  | fuel + 1, l, pos =>
+    if 2 * pos + 1 + 2 ≤ endn then
+      siftDownF le endn fuel (swap l pos (pickChild le l (2 * pos + 1))) (pickChild le l (2 * pos + 1))
+    else if 2 * pos + 1 + 1 = endn then (swap l pos (2 * pos + 1), 2 * pos + 1)
+    else (l, pos)
+
 def siftDown {α : Type} (le : α → α → Bool) (endn : Nat) (l : List α) (pos : Nat) : List α × Nat :=
-  if _h : 2 * pos + 1 + 2 ≤ endn then
-    siftDown le endn (swap l pos (pickChild le l (2 * pos + 1))) (pickChild le l (2 * pos + 1))
-  else if 2 * pos + 1 + 1 = endn then (swap l pos (2 * pos + 1), 2 * pos + 1)
-  else (l, pos)
-termination_by endn - pos
-decreasing_by
-  have h1 := pickChild_ge le l (2 * pos + 1)
-  have h2 := pickChild_le le l (2 * pos + 1)
-  omega
+  siftDownF le endn endn l pos
 
 /-- `BinaryHeap::push` -/
 def hpush {α : Type} (le : α → α → Bool) (l : List α) (x : α) : List α :=
@@ -126,13 +132,19 @@ def Graph.layersOf (g : Graph) (id : Nat) : Nat := (g.nodes.getD id []).length
 def greedyPass (dist : Nat → Nat) (nbrs : List Nat) (cur curD : Nat) : Nat × Nat :=
   nbrs.foldl (fun (acc : Nat × Nat) nb => if dist nb < acc.2 then (nb, dist nb) else acc) (cur, curD)
 
-/-- `loop { ...; if !changed { break } }`: `changed` iff the best distance went down -/
+/-- `loop { ...; if !changed { break } }`: `changed` iff the best distance went down.
+    Structural on a fuel that is never exhausted: the best distance strictly decreases and the
+    function is started with `curD + 1`. -/
+def greedyF (g : Graph) (dist : Nat → Nat) (layer : Nat) : Nat → Nat → Nat → Nat
+  | 0, cur, _ => cur
+  | fuel + 1, cur, curD =>
+    if (greedyPass dist (g.nbrs cur layer) cur curD).2 < curD then
+      greedyF g dist layer fuel (greedyPass dist (g.nbrs cur layer) cur curD).1
+        (greedyPass dist (g.nbrs cur layer) cur curD).2
+    else cur
+
 def greedy (g : Graph) (dist : Nat → Nat) (layer : Nat) (cur curD : Nat) : Nat :=
-  if h : (greedyPass dist (g.nbrs cur layer) cur curD).2 < curD then
-    greedy g dist layer (greedyPass dist (g.nbrs cur layer) cur curD).1
-      (greedyPass dist (g.nbrs cur layer) cur curD).2
-  else cur
-termination_by curD
+  greedyF g dist layer (curD + 1) cur curD
 
 /-- `for layer in (lo..=hi).rev() { current = search_layer_greedy(current, layer) }` -/
 def layersDesc (lo hi : Nat) : List Nat := (List.range' lo (hi + 1 - lo)).reverse
